@@ -501,8 +501,8 @@ fn provider_task(dbi: usize) -> TaskOut {
         for proj in &projections {
             for fl in [vec![], vec![filters[0].clone()]] {
                 for limit in [None, Some(1usize)] {
-                    let pn = native.scan(&state, proj.as_ref(), &fl, limit).await.map_err(|e| e.to_string());
-                    let pf = foreign.scan(&state, proj.as_ref(), &fl, limit).await.map_err(|e| e.to_string());
+                    let pn = native.scan(&state, proj.as_deref(), &fl, limit).await.map_err(|e| e.to_string());
+                    let pf = foreign.scan(&state, proj.as_deref(), &fl, limit).await.map_err(|e| e.to_string());
                     ops += 1;
                     let what = format!("scan(projection {proj:?}, {} filter(s), limit {limit:?})", fl.len());
                     match (pn, pf) {
